@@ -29,9 +29,13 @@ class SimAbort(BaseException):
 
 
 class AbortInjector:
-    """Raise SimAbort at the k-th 'line' event executed in a frame of /repo/src/_gettsim.
+    """Raise SimAbort at the k-th 'line' event executed in code of /repo/src/_gettsim.
 
-    ``count_only`` measures the number of line events of a call (calibration / evidence).
+    Implemented with sys.monitoring (PEP 669): LINE events are enabled only for code
+    objects whose file lies under the package, everything else runs at full speed.
+    ``k=None`` only counts line events (calibration / evidence).  Code that is already
+    on the stack when the injector is entered is not instrumented (never the case here:
+    the injector wraps a whole API call).
     """
 
     def __init__(self, k: int | None):
@@ -39,27 +43,41 @@ class AbortInjector:
         self.count = 0
         self.fired_at = None
         self.root = _gettsim_dir()
-
-    def _local(self, frame, event, arg):
-        if event == "line":
-            self.count += 1
-            if self.k is not None and self.count == self.k:
-                self.fired_at = f"{os.path.relpath(frame.f_code.co_filename, self.root)}:{frame.f_lineno}"
-                raise SimAbort(self.fired_at)
-        return self._local
-
-    def _global(self, frame, event, arg):
-        fn = frame.f_code.co_filename
-        if fn.startswith(self.root):
-            return self._local
-        return None
+        self._codes = []
 
     def __enter__(self):
-        sys.settrace(self._global)
+        mon = sys.monitoring
+        self._tool = mon.DEBUGGER_ID
+        mon.use_tool_id(self._tool, "simabort")
+        me = self
+
+        def on_start(code, offset):
+            if code.co_filename.startswith(me.root):
+                mon.set_local_events(me._tool, code, mon.events.LINE)
+                me._codes.append(code)
+            return mon.DISABLE
+
+        def on_line(code, lineno):
+            me.count += 1
+            if me.k is not None and me.count == me.k:
+                me.fired_at = f"{os.path.relpath(code.co_filename, me.root)}:{lineno}"
+                raise SimAbort(me.fired_at)
+
+        mon.register_callback(self._tool, mon.events.PY_START, on_start)
+        mon.register_callback(self._tool, mon.events.LINE, on_line)
+        mon.set_events(self._tool, mon.events.PY_START)
         return self
 
     def __exit__(self, *exc):
-        sys.settrace(None)
+        mon = sys.monitoring
+        mon.set_events(self._tool, 0)
+        for c in self._codes:
+            mon.set_local_events(self._tool, c, 0)
+        self._codes = []
+        mon.register_callback(self._tool, mon.events.PY_START, None)
+        mon.register_callback(self._tool, mon.events.LINE, None)
+        mon.free_tool_id(self._tool)
+        mon.restart_events()
         return False
 
 
